@@ -120,6 +120,10 @@ views only listed outputs produced inside the view.  Now views list foreign outp
 random positions, nested graphs list foreign (enclosing-scope intermediate) outputs, the traversal records "out"
 events, the oracle requires rejection for any declared output without a clone (corpus view_foreign_output) and
 compares the original's snapshot after a rejected as well as an accepted clone -> caught (C,O).
+Round 6: r6m3 (outer-scope check moved from per input to once per graph: same error, but the discarded nodes stay
+registered as users of the original's captured values) was caught only by the statement pin; the oracle skipped
+uses() of captured values also for rejected clones.  Now, without the flag, a rejected clone must leave the FULL
+snapshot (uses()/consumers() of captured values included) unchanged -> caught with input (O).
 Round 3: r3m2 (functionalize skips the clone for passes that declare themselves functional) was MISSED because
 the functionalize oracle only wrapped a plain in-place pass; it now runs 5 shapes (in-place; Sequential /
 PassManager / nested Sequential of an honest functional pass that returns a new Model on the SAME graph followed
@@ -624,7 +628,7 @@ def mk_view(gen: Gen, g, rng):
                 need.append(v)
     inits = [v for v in need if v.is_initializer()]
     ins = [v for v in need if not v.is_initializer()]
-    if ins and rng.random() < 0.15:
+    if ins and rng.random() < 0.25:
         ins.pop(rng.randrange(len(ins)))           # left out: an outer-scope value for the view
     outs = [o for n in sl for o in n.outputs][: rng.randrange(0, 3)]
     # values defined outside the viewed region, at every position: a declared output produced by a node that is
@@ -1613,11 +1617,21 @@ def oracle(spec: dict, rename: bool = True) -> list[dict]:
     before_ubd = snapshot(ir, sc["model"], skip_uses_of=outer + ubd) if ubd else before
     ser_before = serialize(ir, sc["model"])
     ser_root = serialize(ir, root, normalize_view=(kind == 1))
+    # without allow_outer_scope_values nothing is passed through: a REJECTED clone must leave the FULL observation of the
+    # original unchanged, including uses()/consumers() of the values it captures (no half-built node may stay registered
+    # as a user of an original value)
+    before_full = snapshot(ir, sc["model"]) if not allow else None
     try:
         clone = sc["clone"]()
     except Exception as e:  # noqa: BLE001
         if not outer and not foreign_out and sorted_py and kind != 3 and not ownership_conflict(ir, cg):
             bad("rejected", f"clone of a closed, sorted graph raised {type(e).__name__}: {str(e)[:120]}")
+        if before_full is not None:
+            now_full = snapshot(ir, sc["model"])
+            if now_full != before_full:
+                bad("original-changed", "a rejected clone (outer-scope values not allowed) changed the original, e.g. left "
+                    "discarded nodes registered as users of a captured value: " + first_diff(before_full, now_full))
+                return fails
         now = snapshot(ir, sc["model"], skip_uses_of=outer)
         if now != before or serialize(ir, sc["model"]) != ser_before:
             # (before fix 82dd72c a rejected clone of an unsorted graph could leave its nodes registered as users of
@@ -2003,7 +2017,7 @@ def run(ck) -> None:
     except RuntimeError as e:
         ck.broken("translation:_remap_device_configurations", str(e))
     # ---- corpus + generated cases: correspondence model <-> implementation
-    n = 100 if not ck.thorough else 4800
+    n = 80 if not ck.thorough else 4800
     nops = 6 if not ck.thorough else 10
     specs = load_corpus() + [spec_for(ck.rng, i) for i in range(n)]
     try:
@@ -2038,7 +2052,7 @@ def run(ck) -> None:
         ck.broken("correspondence:clone-model-vs-implementation",
                   json.dumps({"spec": sp, "stage": CODE_MEANING.get(code, str(code))}))
     # ---- the oracle on the same scenarios (and more)
-    extra = 40 if not ck.thorough else 3000
+    extra = 30 if not ck.thorough else 3000
     ospecs = specs + [spec_for(ck.rng, i) for i in range(extra)]
     for sp, _ in bad:
         ospecs.insert(0, sp)
